@@ -22,6 +22,10 @@ func VerifStoreEcho(store *server.Store, dsm *server.DsManager) *echo.Echo {
 	e.GET("/datasets/:dataset/entities", h.getEntitiesHandler)
 	e.GET("/datasets/:dataset/changes", h.getChangesHandler)
 	e.POST("/datasets/:dataset/entities", h.storeEntitiesHandler)
+	q := &queryHandler{store: store, datasetManager: dsm, logger: log}
+	e.POST("/query", q.queryHandler)
+	t := &txnHandler{store: store, logger: log}
+	e.POST("/transactions", t.processTransaction)
 	return e
 }
 
